@@ -83,6 +83,40 @@ class Workspace:
         self.mir_cache[key] = (fns, hashlib.sha256(out.encode()).hexdigest()[:16], out.count("\n"))
         return self.mir_cache[key]
 
+    def mir_bin(self, name="ruschm"):
+        """MIR of the binary target (src/main.rs), dev profile"""
+        key = "bin-" + name
+        if key in self.mir_cache:
+            return self.mir_cache[key]
+        t = time.time()
+        env = dict(ENV, CARGO_TARGET_DIR=os.path.join(CACHE, "target-mir-dev"))
+        cmd = ["cargo", "+nightly", "rustc", "--offline", "--bin", name, "--", "-Zunpretty=mir", "-C", "debug-assertions=off", "-C", "overflow-checks=on"]
+        import fcntl
+        with open(os.path.join(CACHE, "target-mir-bin.lock"), "w") as lk:
+            fcntl.flock(lk, fcntl.LOCK_EX)
+            # the dump is printed only when the target is compiled: make sure it is
+            os.utime(os.path.join(self.crate, "src", "main.rs"), None)
+            rc, out, err = sh(cmd, cwd=self.crate, env=env)
+        if rc != 0 or "fn main" not in out:
+            raise Broken("MIR dump of the binary failed (rc=%d):\n%s" % (rc, err[-3000:]))
+        fns = mir.parse_mir(out)
+        self.timing["mir_bin_s"] = round(time.time() - t, 2)
+        self.mir_cache[key] = (fns, hashlib.sha256(out.encode()).hexdigest()[:16], out.count("\n"))
+        return self.mir_cache[key]
+
+    def executor_bin(self, seed=0, timeout_ms=30000):
+        """executor over the binary's own functions (main) together with the library's"""
+        fns_lib, _, _ = self.mir(True)
+        fns_bin, _, _ = self.mir_bin()
+        if not mir.STRUCTS:
+            mir.parse_decls(os.path.join(self.crate, "src"))
+        fns = dict(fns_lib)
+        for k, v in fns_bin.items():
+            fns.setdefault(k, v)
+        ex = Executor(fns, self.crate, seed=seed, timeout_ms=timeout_ms)
+        ex.overflow_checks = True
+        return ex
+
     def executor(self, overflow_checks=True, seed=0, timeout_ms=30000):
         fns, _, _ = self.mir(overflow_checks)
         if not mir.STRUCTS:
